@@ -8,7 +8,7 @@ EXTRA = {
     "C01": (("gen_tables_time.py",), (float_grid.check_float_grid,)),
     # Props/C02Float.v, Props/C05Float.v: the note-off and action due tests generated from the source
     "C02": (("gen_tables_time.py",), ()),
-    "C05": (("gen_tables_time.py",), ()),
+    "C05": (("gen_tables_time.py", "gen_tables_sched.py"), ()),   # + Timeline._schedule_action -> Sched/SchedTimeSrc.v, Props/C05Src.v
     # the source translators of docs/TRANSLATOR2.md (harness/src2coq.py): function bodies -> Generated/Tables<X>.v, tied to the
     # models by <Dir>/<Model>Src.v, property theorems restated in Props/<ID>Src.v
     "C13": (("gen_tables_tonal.py",), ()),     # Scale.get, Key.get/semitones/__contains__/nearest_note -> Tonal/KeySrc.v, Props/C13Src.v
